@@ -88,6 +88,17 @@ CLAIMED = {
             "Deserialize agree on key->field and tag->variant and serialise every field unconditionally, and "
             "Default::default stores exactly the documented constants. The toml crate's own behaviour is not "
             "decided.", "4/C19"),
+    "C02": ("TABLE: case-tree summaries of the code-selection functions extracted from MIR and evaluated cell-wise on "
+            "the rows of an RFC 9639 oracle + LAYOUT: ordered (width, value) event sequences of the writers (EFFECT "
+            "engine) vs the RFC field layout + ORDER/dataflow on alignment and CRC steps + const-evaluated CRC "
+            "generators + AGREE dataflow identity of predictor order / warm-up length",
+            "Block-size, sample-rate, sample-size, channel and subframe-type codes equal the RFC tables on every row "
+            "(uncommon sizes by interval cells, or the whole 16-bit domain of the extracted summary when a predicate "
+            "is not an interval test); STREAMINFO / metadata / frame-header / LPC / residual layouts, marker, sync "
+            "word, CRC-8/16 generators and coverage, byte alignment before the footer, nothing after the last "
+            "frame, reserved codes never constructed, header fields sourced from the block and STREAMINFO, fixed-"
+            "blocking frame number from the caller, and warm-up count = residual warm-up length = declared order. "
+            "Values (CRCs, Rice parameters, residual magnitudes) are not decided.", "4/C02"),
     "C08": ("EFFECT: bit-effect inference over the structured MIR of every BitRepr::write (loops summarised by "
             "induction-variable recognition, closures/scratch sinks inlined) compared as a normalised polynomial / "
             "case tree with the value returned by count_bits; TABLE for extra-bit writers; dataflow identities for "
